@@ -75,10 +75,13 @@ func injections(hist string) map[string][]byte {
 		"unknownid-allones4": unk(0xffffffff),
 		"badtablemap":        c.Event(hd(ref.EvTableMap), tm, 1000, false),
 		"rowsquery":          c.Event(hd(ref.EvRowsQuery), ref.BodyRowsQuery("insert into t1 values (1)"), 1000, false),
-		"intvar":             c.Event(hd(ref.EvIntVar), ref.BodyIntVar(2, 77), 1000, false),
-		"rand":               c.Event(hd(ref.EvRand), ref.BodyRand(1, 2), 1000, false),
-		"truncated":          trunc,
-		"tiny":               {1, 2, 3},
+		// as a MySQL >= 5.6 master writes it: LOG_EVENT_IGNORABLE_F set
+		"rowsquery-ign": c.Event(ref.Header{Timestamp: 1600000005, Type: ref.EvRowsQuery, ServerID: c.ServerID, Flags: 0x80}, ref.BodyRowsQuery("insert into t1 values (1)"), 1000, false),
+		"intvar-ign":    c.Event(ref.Header{Timestamp: 1600000005, Type: ref.EvIntVar, ServerID: c.ServerID, Flags: 0x80}, ref.BodyIntVar(2, 77), 1000, false),
+		"intvar":        c.Event(hd(ref.EvIntVar), ref.BodyIntVar(2, 77), 1000, false),
+		"rand":          c.Event(hd(ref.EvRand), ref.BodyRand(1, 2), 1000, false),
+		"truncated":     trunc,
+		"tiny":          {1, 2, 3},
 	}
 }
 
@@ -207,9 +210,20 @@ func stopScenarios(hist string, full bool) []e1.Scenario {
 			sc.Attempts = []e1.Attempt{att(simmaster.Plan{At: -1, Final: "silent"})}
 			out = append(out, sc)
 		}
-		for _, name := range []string{"rowsquery", "intvar", "rand", "truncated", "tiny", "badtablemap", "unknownid-a2", "unknownid-ffffff", "unknownid-1ffffff", "unknownid-allones4"} {
+		// ERR packets of unusual shape in place of an event: the stream ends with an error, no panic
+		for _, raw := range [][]byte{{0xff}, {0xff, 0xd4}, {0xff, 0xd4, 0x04}, {0xff, 0xd4, 0x04, '#'}, {0xff, 0xd4, 0x04, '#', 'H', 'Y'}} {
+			for _, at := range []int{2, 5} {
+				if at >= n {
+					continue
+				}
+				sc := base(fmt.Sprintf("%s/%s/raw-err%d@%d", hist, pacing, len(raw), at), hist, pacing)
+				sc.Attempts = []e1.Attempt{att(simmaster.Plan{At: at, Kind: "replace", Inject: raw, Raw: true, Final: "silent"})}
+				out = append(out, sc)
+			}
+		}
+		for _, name := range []string{"rowsquery", "rowsquery-ign", "intvar-ign", "intvar", "rand", "truncated", "tiny", "badtablemap", "unknownid-a2", "unknownid-ffffff", "unknownid-1ffffff", "unknownid-allones4"} {
 			for at := 2; at < n; at++ {
-				if !full && name != "rowsquery" && name != "badtablemap" && at%4 != 2 {
+				if !full && !strings.HasPrefix(name, "rowsquery") && name != "badtablemap" && at%4 != 2 {
 					continue
 				}
 				if strings.HasPrefix(name, "unknownid") && at != 4 && at != 6 {
@@ -231,7 +245,7 @@ func stopScenarios(hist string, full bool) []e1.Scenario {
 					sc.Attempts = []e1.Attempt{a}
 					out = append(out, sc)
 				}
-				if name == "badtablemap" || strings.HasPrefix(name, "unknownid") || name == "rowsquery" || name == "intvar" || name == "rand" {
+				if name == "badtablemap" || strings.HasPrefix(name, "unknownid") || strings.HasPrefix(name, "rowsquery") || strings.HasPrefix(name, "intvar") || name == "rand" {
 					// ... and with the master ending the stream cleanly afterwards: an
 					// event the parser silently skipped must not turn into a clean end
 					sc := base(fmt.Sprintf("%s/%s/inject-%s@%d/eof", hist, pacing, name, at), hist, pacing)
@@ -290,6 +304,13 @@ func stopScenarios(hist string, full bool) []e1.Scenario {
 			name string
 			a    e1.Attempt
 		}{"eof", att(simmaster.Plan{At: -1, Final: "eof"})})
+		// ... or an attempt that failed between the SET query and the first event
+		for _, pre := range []string{"fin_after_auth", "fin_after_query", "rst_after_query", "err_dump", "fin_after_dump"} {
+			firsts = append(firsts, struct {
+				name string
+				a    e1.Attempt
+			}{"pre-" + pre, att(simmaster.Plan{Pre: pre, At: -1, Final: "eof"})})
+		}
 		for _, f := range firsts {
 			for _, second := range []struct {
 				name string
